@@ -148,6 +148,16 @@ fn is_harness_location(loc: &str) -> bool {
 pub fn run_once(check: &dyn Check, ch: &mut Chooser, tier: Tier) -> Result<RunOutcome, String> {
     match guarded(|| check.run(ch, tier)) {
         Ok(o) => Ok(o),
+        Err((msg, loc)) if msg.starts_with("DetectLock:") => {
+            // the instance-state lock was requested again while held for writing: under RefCell
+            // that is a re-borrow panic, under the daemon's RwLock a self-deadlock
+            let mut o = RunOutcome::default();
+            o.sut_panics.push(format!("{msg} @ {loc}"));
+            o.violate("C17", "C17.reentrant_lock_request_while_held_for_writing", format!("family={}", check.family()), format!("{msg} (scenario {})", check.family()));
+            o.violate("C03", "C03.panic_in_scenario", format!("family={} msg=DetectLock re-borrow", check.family()), msg.clone());
+            o.nontrivial = true;
+            Ok(o)
+        }
         Err((msg, loc)) => {
             if is_harness_location(&loc) {
                 Err(format!("harness panic at {loc}: {msg}"))
